@@ -130,6 +130,8 @@ func (s *ipState) clone() *ipState {
 }
 
 type c19eval struct {
+	decls  map[*types.Func]*ast.FuncDecl // same-package functions, for single-expression helpers
+	depth  int
 	ip     *ipState
 	info   *types.Info
 	recv   types.Object
@@ -210,6 +212,44 @@ func (ev *c19eval) eval(e ast.Expr) absSeq {
 		// conversion Decorations(x) / []string(x)
 		if tv, ok := ev.info.Types[x.Fun]; ok && tv.IsType() && len(x.Args) == 1 {
 			return ev.eval(x.Args[0])
+		}
+		// a same-package helper whose body is a single `return <expression>`: evaluated with its
+		// slice parameters bound to the arguments' abstract values
+		if fn := calleeFunc(ev.info, x); fn != nil && ev.decls != nil && !x.Ellipsis.IsValid() {
+			if h := ev.decls[fn]; h != nil && h.Body != nil && len(h.Body.List) == 1 && ev.depth < 3 {
+				if ret, ok := h.Body.List[0].(*ast.ReturnStmt); ok && len(ret.Results) == 1 {
+					var params []types.Object
+					for _, p := range h.Type.Params.List {
+						for _, nm := range p.Names {
+							params = append(params, ev.info.Defs[nm])
+						}
+					}
+					if len(params) == len(x.Args) {
+						saved := map[types.Object]absSeq{}
+						had := map[types.Object]bool{}
+						for i, p := range params {
+							if _, isSlice := p.Type().Underlying().(*types.Slice); !isSlice {
+								continue
+							}
+							if old, ok := ev.vars[p]; ok {
+								saved[p], had[p] = old, true
+							}
+							ev.vars[p] = ev.eval(x.Args[i])
+						}
+						ev.depth++
+						v := ev.eval(ret.Results[0])
+						ev.depth--
+						for _, p := range params {
+							if had[p] {
+								ev.vars[p] = saved[p]
+							} else {
+								delete(ev.vars, p)
+							}
+						}
+						return v
+					}
+				}
+			}
 		}
 	}
 	return absSeq{ok: false, why: "expression outside the analysable subset: " + types.ExprString(e)}
@@ -613,7 +653,12 @@ func (e *Env) C19() {
 		pos := e.Prog.Pos(fd.Pos())
 		_, ptrRecv := fd.Recv.List[0].Type.(*ast.StarExpr)
 		e.Run.Check("R-LIST", key+" has a pointer receiver", pos, ptrRecv, "a value receiver would update a copy of the list")
-		ev := &c19eval{info: pkg.TypesInfo}
+		ev := &c19eval{info: pkg.TypesInfo, decls: map[*types.Func]*ast.FuncDecl{}}
+		for _, d := range load.AllFuncDecls(pkg) {
+			if fn, ok := pkg.TypesInfo.Defs[d.Name].(*types.Func); ok {
+				ev.decls[fn] = d
+			}
+		}
 		if len(fd.Recv.List[0].Names) == 1 {
 			ev.recv = pkg.TypesInfo.Defs[fd.Recv.List[0].Names[0]]
 		}
